@@ -54,6 +54,7 @@ type half struct {
 	cond     *sync.Cond
 	buf      []byte
 	capacity int
+	frozen   bool // the network stopped delivering: reads block although data is buffered
 	wclosed  bool // writer closed its end: reader sees EOF after draining
 	rclosed  bool // reader closed its end: writer sees an error
 	reset    bool
@@ -131,7 +132,7 @@ func (h *half) read(p []byte) (int, error) {
 		if len(p) == 0 {
 			return 0, nil
 		}
-		if len(h.buf) > 0 {
+		if len(h.buf) > 0 && !h.frozen {
 			n := len(p)
 			if n > len(h.buf) {
 				n = len(h.buf)
@@ -152,7 +153,7 @@ func (h *half) read(p []byte) (int, error) {
 			h.cond.Broadcast()
 			return n, nil
 		}
-		if h.wclosed {
+		if h.wclosed && !h.frozen {
 			return 0, io.EOF
 		}
 		if !h.rdl.IsZero() && !time.Now().Before(h.rdl) {
@@ -279,6 +280,17 @@ type Link struct {
 	Client     *Conn
 	Server     *Conn
 	ClientAddr *net.TCPAddr
+}
+
+// Freeze stops delivery in both directions without closing anything (a
+// stalled path): buffered and future bytes stay in the network.
+func (l *Link) Freeze(on bool) {
+	for _, h := range []*half{l.C2S, l.S2C} {
+		h.mu.Lock()
+		h.frozen = on
+		h.cond.Broadcast()
+		h.mu.Unlock()
+	}
 }
 
 // Reset aborts the link in both directions (TCP RST).
